@@ -73,7 +73,7 @@ enum Entry {
   E_ADD, E_SUB, E_MUL, E_IADD, E_ISUB, E_LINCOMB, E_BILIN, E_NUMINT, E_APPLY_FACTOR, E_LIN_FACTOR,
   E_BILIN_FACTOR, E_HELD_APPLY, E_GENERATOR, E_N
 };
-enum DiffKind { D_EQUAL_DISTINCT, D_SAME_OBJECT, D_MOVED, D_EXTRA_FRONT, D_EXTRA_BACK, D_EXTRA_INSIDE, D_OTHER, D_N };
+enum DiffKind { D_EQUAL_DISTINCT, D_SAME_OBJECT, D_MOVED, D_NUDGED, D_EXTRA_FRONT, D_EXTRA_BACK, D_EXTRA_INSIDE, D_OTHER, D_N };
 constexpr int PR_MATRIX0 = 64;
 const char *entry_name(int e);
 const char *diff_name(int d);
@@ -84,9 +84,15 @@ inline int grid_diff_kind(const Grid &a, const Grid &b) {
   const std::vector<T> *x = da.get(), *y = db.get();
   if (x->size() == y->size()) {
     size_t nd = 0;
+    bool tiny = false;
     for (size_t i = 0; i < x->size(); i++)
-      if (!((*x)[i].raw() == (*y)[i].raw())) nd++;
-    return nd == 0 ? D_EQUAL_DISTINCT : nd == 1 ? D_MOVED : D_OTHER;
+      if (!((*x)[i].raw() == (*y)[i].raw())) {
+        nd++;
+        Val d = (*x)[i].raw() - (*y)[i].raw();
+        if (d < Val(0)) d = -d;
+        tiny = d < Val(1) / Val(1048576);
+      }
+    return nd == 0 ? D_EQUAL_DISTINCT : nd == 1 ? (tiny ? D_NUDGED : D_MOVED) : D_OTHER;
   }
   if (x->size() > y->size()) std::swap(x, y);  // x is the shorter one
   if (y->size() != x->size() + 1) return D_OTHER;
